@@ -61,7 +61,20 @@ def run_repro(scn):
                   "num_operators": 2, "waiting_seconds_mean": 0.4, "random_seed": 777, "cpu_io_ratio": 0.9,
                   "cpus_per_pool": 3, "ram_gb_per_pool": 7})
         simmod.run_simulator(p)
-    d2, s2, out2, rec2 = run_digest(scn, {"uuid_seed": scn["u2"], "container_offset": scn.get("off2", 7000)}, internal)
+    scn2 = scn
+    if scn.get("share_segments") and not internal:
+        # the caller keeps Segment prototypes: an earlier simulation ran the very same Segment objects at another tick
+        # rate and on other pool sizes; the second run of the pair uses them again
+        sysdrv.SEGMENT_CACHE.clear()
+        h = json.loads(json.dumps(scn))
+        h["cfg"]["tps"] = scn["share_segments"]["tps"]
+        h["cfg"]["cpus"] = scn["share_segments"]["cpus"]
+        h["cfg"]["duration"] = min(h["cfg"]["duration"], 150.0 / h["cfg"]["tps"])
+        h["share_segments"] = True
+        run_digest(h, {"uuid_seed": scn["u1"] + 99, "container_offset": 900})
+        scn2 = dict(scn, share_segments=True)
+    d2, s2, out2, rec2 = run_digest(scn2, {"uuid_seed": scn["u2"], "container_offset": scn.get("off2", 7000)}, internal)
+    sysdrv.SEGMENT_CACHE.clear()
     res = {"violation": None, "discard": None, "faults": {"uuid_stream_changed": 1, "container_numbers_shifted": 1,
                                                            "preceding_simulations": scn.get("fillers", 1)},
            "probes": dict(out["probes"]), "ticks": out["ticks"] * 2, "sim_s": out["sim_s"] * 2, "nontrivial": True, "sig": d1, "digest": d1,
@@ -134,6 +147,9 @@ def gen_repro(r, tier):
     scn["off2"] = r.choice([2, 10, 99, 1000, 123456])
     scn["fillers"] = r.randint(0, 3)
     scn["kind"] = "repro"
+    if "pipes" in scn and r.random() < 0.25:
+        scn["share_segments"] = {"tps": r.choice([t for t in (1, 2, 5, 10, 20, 100) if t != scn["cfg"]["tps"]]),
+                                 "cpus": scn["cfg"]["cpus"]}
     return scn
 
 
